@@ -100,6 +100,33 @@ Definition check_mutability (E : env) (p : place) : mres :=
 Definition report_blocks (r : mres) : bool :=
   match r with MAllowed | MValueReceiver => false | _ => true end.
 
+(* ---- collector.go: which iterator variable of a for statement is read-only ----------------------------------- *)
+
+(* the iterator variables of `for a, b in e`, in order: Some name, or None for the placeholder `_`.
+   markForIteratorIndexReadOnly: fewer than two declared variables -> nothing; the first one is `_` -> nothing;
+   otherwise the symbol of the FIRST variable gets IsReadonly (whatever the second one is, `_` included). *)
+Definition mark_for_index (decls : list (option nat)) : option nat :=
+  match decls with
+  | first :: _ :: _ => first
+  | _ => None
+  end.
+
+(* collectVarDecl inside collectForStmt: every named variable becomes a SymbolVariable of the loop scope
+   (placeholders get no symbol); element / index / key types generated by the harness are never references *)
+Definition for_sym (marked : option nat) (x : nat) : sym :=
+  mkSym SVariable (match marked with Some y => Nat.eqb x y | None => false end) RNone.
+
+Fixpoint for_decl_syms (marked : option nat) (decls : list (option nat)) : list (nat * sym) :=
+  match decls with
+  | [] => []
+  | Some x :: r => (x, for_sym marked x) :: for_decl_syms marked r
+  | None :: r => for_decl_syms marked r
+  end.
+
+(* the symbols a for statement adds to the scope of its body *)
+Definition for_syms (decls : list (option nat)) : list (nat * sym) :=
+  for_decl_syms (mark_for_index decls) decls.
+
 (* ---- typechecker.go ------------------------------------------------------------------------------------ *)
 
 (* class of the first error of a mutation attempt; DOk / DWarn = accepted *)
